@@ -268,7 +268,8 @@ Alloc(st, o) == [st |-> [st EXCEPT !.heap = Append(@, o)], a |-> Len(st.heap) + 
 \* built-in array methods documented in builtin_types.md / standard_library.md
 Method(m, recv, argv, st, ln) ==
   LET o == st.heap[recv.a] IN
-  CASE m = "len"  -> Ok(st, IntV(Len(o.es)))
+  CASE m = "str"  -> Ok(st, StrV(Show(recv, st.heap)))                \* ToString: the documented text of the value
+    [] m = "len"  -> Ok(st, IntV(Len(o.es)))
     [] m = "push" -> Ok([st EXCEPT !.heap[recv.a].es = Append(@, argv[1])], NilV)
     [] m = "pop"  -> IF o.es = <<>> THEN Fail(st, "anyerr", "", ln)      \* C26: must be *a* runtime error
                      ELSE Ok([st EXCEPT !.heap[recv.a].es = SubSeq(@, 1, Len(@) - 1)], o.es[Len(o.es)])
